@@ -721,7 +721,6 @@ class One(_C06Base):
         "detection required (realign)",
         "detection required (cigar)",
         "carried allele detected",
-        "no allele recorded where the statement allows it",
     ]
 
     def shapes(self, tier):
